@@ -45,6 +45,7 @@ def run(ctx, db, tier):
     from . import C06
     C06.typestate(ctx, db, 'C02.many-waiters-carried-intact')
     C06.consumers_clear(ctx, db, 'C02.many-waiters-each-taken-once')
+    C06.source_reset(ctx, db, 'C02.merged-waiters-woken-once')
     # a payload stored without the resolution that follows it in every resolver leaves the waiters suspended for ever
     C01.receivers(ctx, db, 'C02.no-store-without-release')
     atomic.check_roles(ctx, db, 'C02.observes-complete-result', only_functions=RESULT_VISIBILITY_FUNCTIONS, floor=8)
